@@ -415,14 +415,64 @@ def loadGraph {P B D : Type} [DecidableEq D] (c : Codec P B D) (dir : List (Path
         then .error .countMismatch
         else .ok (d2, idmap)
 
-/-- `Load` of a single-graph collection into an empty target: verify all, require empty, load. -/
-def load {P B D : Type} [DecidableEq D] (c : Codec P B D) (gd : GraphDump P B D) (batch : Nat)
+/-- one graph of a collection that lives in directory `dir`: verify its fragments, require the target
+empty, load -/
+def loadIn {P B D : Type} [DecidableEq D] (c : Codec P B D) (dir : List (Path × B)) (m : GraphManifest D) (batch : Nat)
     (alloc allocE : Nat → Nat) (d : Dst P) : Except LoadErr (Dst P × IdMap) :=
-  match verifyFragments c gd.files gd.manifest with
+  match verifyFragments c dir m with
   | .error e => .error e
   | .ok () =>
     if d.nodes.length ≠ 0 ∨ d.edges.length ≠ 0 then .error .notEmpty
-    else loadGraph c gd.files gd.manifest batch alloc allocE d
+    else loadGraph c dir m batch alloc allocE d
+
+/-- `Load` of a single-graph collection into an empty target: verify all, require empty, load. -/
+def load {P B D : Type} [DecidableEq D] (c : Codec P B D) (gd : GraphDump P B D) (batch : Nat)
+    (alloc allocE : Nat → Nat) (d : Dst P) : Except LoadErr (Dst P × IdMap) :=
+  loadIn c gd.files gd.manifest batch alloc allocE d
+
+/-! ## The whole collection: every target graph, in order (dump.go: Dump loop; load.go: Load) -/
+
+/-- `Dump`: the target graphs one after the other; the manifest lists them in that order -/
+def dumpAll {P B D : Type} (c : Codec P B D) (batch shard : Nat) : List (Graph P) → Except DumpErr (List (GraphDump P B D))
+  | [] => .ok []
+  | g :: gs =>
+    match dumpGraph c g batch shard with
+    | .error e => .error e
+    | .ok d =>
+      match dumpAll c batch shard gs with
+      | .error e => .error e
+      | .ok ds => .ok (d :: ds)
+
+/-- the dump directory: the fragments of all graphs -/
+def allFiles {P B D : Type} (ds : List (GraphDump P B D)) : List (Path × B) := (ds.map (fun d => d.files)).flatten
+
+/-- `verifyLoadFragments`: every fragment of every graph, before anything is written -/
+def verifyAll {P B D : Type} [DecidableEq D] (c : Codec P B D) (dir : List (Path × B)) : List (GraphManifest D) → Except LoadErr Unit
+  | [] => .ok ()
+  | m :: ms =>
+    match verifyFragments c dir m with
+    | .error e => .error e
+    | .ok () => verifyAll c dir ms
+
+/-- the load loop over the manifest's graphs: each graph gets an empty target and its OWN id map (a fresh
+`nodeIDResolver`); the destination's creation counters run on from graph to graph -/
+def loadGraphs {P B D : Type} [DecidableEq D] (c : Codec P B D) (dir : List (Path × B)) (batch : Nat) (alloc allocE : Nat → Nat) :
+    List (GraphManifest D) → Nat → Nat → Except LoadErr (List (Dst P × IdMap))
+  | [], _, _ => .ok []
+  | m :: ms, nc, ec =>
+    match loadGraph c dir m batch alloc allocE { nodes := [], edges := [], nodeCtr := nc, edgeCtr := ec } with
+    | .error e => .error e
+    | .ok (d, idmap) =>
+      match loadGraphs c dir batch alloc allocE ms d.nodeCtr d.edgeCtr with
+      | .error e => .error e
+      | .ok rs => .ok ((d, idmap) :: rs)
+
+/-- `Load` of a collection into an empty database -/
+def loadAll {P B D : Type} [DecidableEq D] (c : Codec P B D) (dir : List (Path × B)) (ms : List (GraphManifest D)) (batch : Nat)
+    (alloc allocE : Nat → Nat) (nc ec : Nat) : Except LoadErr (List (Dst P × IdMap)) :=
+  match verifyAll c dir ms with
+  | .error e => .error e
+  | .ok () => loadGraphs c dir batch alloc allocE ms nc ec
 
 /-! ## Verify (verify.go) -/
 
